@@ -992,6 +992,10 @@ func (e *SpecEnv) evalGoCall(n *SCall) Value {
 					closed = false
 				}
 			}
+			// the bound variable may have travelled through a `define` (whose environment has no binder of its own)
+			if qvarRe.MatchString(d) {
+				closed = false
+			}
 		}
 		if closed {
 			saved := u.ctx.inQuant
